@@ -44,6 +44,7 @@ def _nav_op(r, T, is_dt):
 
 
 _GAPS = {}
+_GAP_HINT = [None]
 
 
 def _carried_gap_value(r):
@@ -55,7 +56,8 @@ def _carried_gap_value(r):
         gs = [(tzdb.us_to_fields((t + o0) * 10**6), o1 - o0) for t, o0, o1 in tzdb.transitions(z) if o1 > o0]
         _GAPS[z] = (gs, [g for g in gs if g[0][2] == 1])
     gs, first = _GAPS[z]
-    pick = first if (first and r.random() < 0.6) else gs
+    late = [g for g in gs if g[0][3] >= 22]      # a gap that pushes a kept time onto the following day
+    pick = late if (late and r.random() < 0.4) else first if (first and r.random() < 0.6) else gs
     if not pick:
         return None
     w, width = r.choice(pick)
@@ -72,19 +74,60 @@ def _carried_gap_value(r):
     else:
         m2 = r.randint(1, 12)
         d2 = min(d, _cal.monthrange(y, m2)[1])
+    if r.random() < 0.3:
+        # a few days from the gap: a keep_time search steps *through* the day that lacks the time
+        dd = _dt.date(y, m, d) + _dt.timedelta(days=r.choice([-6, -3, -2, -1, 1, 2, 3, 6]))
+        m2, d2 = dd.month, dd.day
+        if dd.year != y:
+            return None
     f = [y, m2, d2] + tod[3:]
     if tzdb.classify(z, f) != "unique":
         return None
+    _GAP_HINT[0] = [y, m, d]
     return {"$": "dt", "f": f, "tz": z, "fold": r.choice([0, 0, 0, 1])}
+
+
+_REP_SKIP = {}
+_REP_SKIP_ZONES = ["Europe/Moscow", "Asia/Amman", "America/Havana", "Asia/Beirut", "Asia/Gaza", "Africa/Cairo", "America/Asuncion",
+                   "Asia/Damascus", "Europe/Athens"]
+
+
+def _repeated_midnight_value(r):
+    """a DateTime on a day whose own midnight is repeated, in a year where the same zone skips the
+    midnight of a first-of-month: the occurrence chosen for the own midnight must not decide how
+    the target midnight is resolved."""
+    z = r.choice(_REP_SKIP_ZONES)
+    if z not in _REP_SKIP:
+        skips, reps = {}, {}
+        for t, o0, o1 in tzdb.transitions(z):
+            w0, w1 = tzdb.us_to_fields((t + o0) * 10**6), tzdb.us_to_fields((t + o1) * 10**6)
+            if o1 > o0 and w0[2] == 1 and w0[3:6] == [0, 0, 0]:
+                skips.setdefault(w0[0], []).append(w0[:3])
+            if o1 < o0:
+                for d in (w0[:3], w1[:3]):
+                    if tzdb.classify(z, d + [0, 0, 0, 0]) == "repeated":
+                        reps.setdefault(d[0], []).append(d)
+        _REP_SKIP[z] = [(rd, sk) for y in reps if y in skips for rd in reps[y] for sk in skips[y]]
+    if not _REP_SKIP[z]:
+        return None
+    rd, _sk = r.choice(_REP_SKIP[z])
+    f = rd + [r.choice([0, 0, 12, r.randint(0, 23)]), r.choice([0, 30, r.randint(0, 59)]), 0, 0]
+    c = tzdb.classify(z, f)
+    if c == "skipped":
+        return None
+    return {"$": "dt", "f": f, "tz": z, "fold": r.randrange(2)}
 
 
 def gen(rp, rw, tier):
     pool, meta = [], []
+    hint = None
     if rp.random() < 0.15:
-        s = _carried_gap_value(rp)
+        _GAP_HINT[0] = None
+        s = _carried_gap_value(rp) if rp.random() < 0.6 else _repeated_midnight_value(rp)
         if s is not None:
             pool.append(s)
             meta.append("dt")
+            hint = _GAP_HINT[0]
     for _ in range(rp.choice([1, 2, 2, 3])):
         if rp.random() < 0.4:
             pool.append(gen_dt.date_value(rp))
@@ -112,6 +155,14 @@ def gen(rp, rw, tier):
             if rp.random() < 0.2:
                 # chains: navigation of a navigated value
                 ops.append(_nav_op(rp, {"$": "r", "i": len(ops) - 1}, meta[i] == "dt"))
+        if c == 0 and hint is not None and rp.random() < 0.7:
+            # search with the time kept, towards and across the day that lacks it
+            g = _dt.date(*hint)
+            x = _dt.date(*pool[0]["f"][:3])
+            tgt = g + _dt.timedelta(days=rp.choice([0, 1, 1, -1]))
+            if tgt != x:
+                ops.insert(rp.randrange(len(ops) + 1), ["call", {"$": "p", "i": 0}, "next" if tgt > x else "previous",
+                                                        [{"$": "wd", "v": tgt.weekday()}], {"keep_time": True}])
         actors.append({"name": "T%d" % (c + 1), "ops": ops})
     world = {"week_start": rw.randrange(7), "week_end": rw.randrange(7)}
     if rw.random() < 0.3:
@@ -250,7 +301,7 @@ def l2_check(run):
                             # repeated target wall time / skipped kept time: only the calendar day is fixed by the statement
                             n += 1
                             if not (isinstance(robs, list) and robs[0] == "DateTime" and robs[1][:3] == wf and robs[4] == xobs[4]):
-                                fail = {"want_date": wf, "wall": cls}
+                                fail = {"want_date": wf, "wall": cls, "kept_time": cls if keep else None}
             if fail is not None:
                 boundary = "n/a"
                 if xobs[0] == "DateTime" and isinstance(zone, (str, int)):
@@ -279,7 +330,7 @@ def l2_check(run):
                 viols.append({"oracle": "L2.navigation", "label": common.label(op), "actor": a["name"], "i": i, "op": op,
                               "sim_obs": robs, "detail": fail,
                               "sig_extra": [boundary],
-                              "facts": {"method": op[2], "type": xobs[0], "boundary": boundary,
+                              "facts": {"method": op[2], "type": xobs[0], "boundary": boundary, "kept_time": fail.get("kept_time"),
                                         "class": "%s/%s/fold%s" % (op[2], boundary, fail["input_fold"]),
                                         "raises": robs[1] if isinstance(robs, list) and robs and robs[0] == "EXC" else None}})
     return viols, {"l2_evals": n}
